@@ -252,3 +252,19 @@ for _k, (_tech, _t) in _ROUND11.items():
     if _tech:
         CLAIMS[_k]["technique"] = CLAIMS[_k]["technique"].rstrip() + " + " + _tech
     CLAIMS[_k]["text"] = CLAIMS[_k]["text"].rstrip() + " " + _t
+
+# round 12 and the frame obligations added with it
+_ROUND12 = {
+    "C01": ("", "Constness is probed at every member of a repetition (non-first arguments, directives, list and object members) of every [Const] site."),
+    "C02": ("", "The Lexer's string / block-string contracts are also evaluated at run time on every quote-containing text of the lexer corpus."),
+    "C03": ("frame obligations: no function of the printer modifies the tree it prints", "Printing leaves the tree untouched (57 functions)."),
+    "C04": ("frame obligations: no function of the execution package, collect_fields, the coercion utilities or the entry points writes into the schema, the document or the variables",
+            "Executing a request leaves schema, document and variables untouched (59 functions), so a result cannot depend on earlier requests through them."),
+    "C15": ("frame obligations on the introspection module and the default-value renderer", "Answering an introspection request modifies nothing it is given."),
+    "C19": ("frame obligations on the depth rule", "Measuring the depth modifies nothing it is given."),
+    "C20": ("frame obligations on the differ", "Diffing modifies neither schema."),
+}
+for _k, (_tech, _t) in _ROUND12.items():
+    if _tech:
+        CLAIMS[_k]["technique"] = CLAIMS[_k]["technique"].rstrip() + " + " + _tech
+    CLAIMS[_k]["text"] = CLAIMS[_k]["text"].rstrip() + " " + _t
